@@ -11,6 +11,8 @@ import subprocess
 import sys
 
 rnd, wroot, oroot = sys.argv[1], sys.argv[2], sys.argv[3]
+KIND = sys.argv[4] if len(sys.argv) > 4 else "small-slip (one of six per property)"
+WRITTEN = sys.argv[5] if len(sys.argv) > 5 else None
 VERIF = os.path.dirname(os.path.dirname(os.path.abspath(__file__)))
 NOTES = {}
 notes_file = os.path.join(oroot, "NOTES.json")
@@ -50,11 +52,13 @@ for prop in sorted(os.listdir(wroot)):
         shutil.copy(os.path.join(w, "change_%d.diff" % i), os.path.join(dst, "patch.diff"))
         shutil.copy(os.path.join(w, "demo_%d.py" % i), os.path.join(dst, "demo.py"))
         meta = {
-            "id": sid, "property": prop, "round": int(rnd), "kind": "small-slip (one of six per property)",
-            "written_by": "independent sub-agent given only the property text and a scratch worktree of /repo, asked for six different "
-                          "small property-breaking changes, each with its own demonstration",
-            "where": where, "change": row[1] if len(row) > 1 else "?", "why_it_breaks": row[2] if len(row) > 2 else "?",
-            "needs_to_manifest": row[3] if len(row) > 3 else "?",
+            "id": sid, "property": prop, "round": int(rnd), "kind": KIND,
+            "written_by": WRITTEN or ("independent sub-agent given only the property text and a scratch worktree of /repo, asked for six different "
+                          "small property-breaking changes, each with its own demonstration"),
+            "where": where,
+            **({"kind_and_commit_message": row[1], "change": row[2], "why_it_breaks": row[3], "needs_to_manifest": row[4]} if len(row) >= 5 else
+               {"change": row[1] if len(row) > 1 else "?", "why_it_breaks": row[2] if len(row) > 2 else "?",
+                "needs_to_manifest": row[3] if len(row) > 3 else "?"}),
             "detected_by": sorted({p for p, _ in det}),
             "detected_by_rules": ["%s %s" % (p, r) for p, r in det],
             "fail_closed_in": closed,
